@@ -108,7 +108,7 @@ func (v VLA) analyzeVLAForMarshaling() (*vlaMarshalingContext, error) {
 		return nil, err
 	}
 
-	ctx.commonSLBM = commonSLBMValues(ctx.slMBs[:])
+	ctx.commonSLBM = commonSLBMValues(ctx.slMBs[:v.RTPStreamCount])
 
 	// RID, NS, sl_bm fields
 	if ctx.commonSLBM != 0 {
@@ -193,12 +193,11 @@ func (v VLA) Marshal() ([]byte, error) { // nolint: cyclop
 }
 
 func commonSLBMValues(slMBs []uint8) uint8 {
+	// the shared bitmask applies to every RTP stream, so a stream without
+	// active layers next to an active one needs the per-stream form
 	var common uint8
 	for i := 0; i < len(slMBs); i++ {
-		if slMBs[i] == 0 {
-			continue
-		}
-		if common == 0 {
+		if i == 0 {
 			common = slMBs[i]
 
 			continue
